@@ -193,6 +193,10 @@ class SFile(object):
             raise ProgExc(ValueError, "I/O operation on closed file")
 
     def _avail(self, n):
+        if getattr(self, "assume_present", False):
+            # precondition "the bytes being parsed are present" (well-formed stream)
+            sym.get_state().assume(self.pos + n <= self.size)
+            return n
         interp_truth = lambda v: bool(v)
         avail = self.size - self.pos
         if interp_truth(self.pos + n <= self.size):
